@@ -112,6 +112,20 @@ fn gen_trial(rng: &mut Rng, id: u64) -> Trial {
             ConnPlan { m, pipelined: rng.chance(1, 2), gaps_us: (0..m).map(|_| if rng.chance(1, 2) { 0 } else { rng.range(0, 4000) as u64 }).collect() }
         })
         .collect();
+    // a tenth of the trials: one slow receiver in recv() behind which a backlog builds up (one
+    // pipelined connection, requests back to back) while unblock() is called a few times: the
+    // tokens land in the middle of the backlog and the receiver must still see wire order
+    if rng.chance(1, 10) {
+        let m = rng.range(8, 16);
+        let conns = vec![ConnPlan { m, pipelined: true, gaps_us: vec![0; m] }];
+        let receivers = vec![RecvScript {
+            ops: vec![if rng.chance(1, 2) { Op::Recv } else { Op::IterNext }],
+            leave: Leave::Loop,
+            after_get: AfterGet::HoldMs(rng.range(3, 12) as u64),
+        }];
+        let unblocks_us = (0..rng.range(2, 4)).map(|_| rng.range(500, 6000) as u64).collect();
+        return Trial { id, conns, receivers, unblocks_us };
+    }
     let c = rng.range(1, 8);
     let mut receivers = Vec::new();
     // a quarter of the trials: an application whose workers are busy for a while after each
